@@ -141,7 +141,11 @@ def _work(chunk):
             text = fn(*args)
             if len(text) > 400:
                 continue
-            res.append((text, outcome(lexer, parser, text)))
+            oc = outcome(ODataLexer(), ODataParser(), text)       # fresh instances: the reference outcome
+            oc_shared = outcome(lexer, parser, text)              # instances reused across this worker's whole chunk
+            if oc_shared != oc:
+                oc = ("non-node:history-dependent outcome (fresh %s, reused %s)" % (oc[0], oc_shared[0]), None)
+            res.append((text, oc))
         out.append((ci, combo, res))
     return out
 
@@ -202,7 +206,8 @@ def explore(ctx, max_rounds=6, time_frac=0.85):
                         executions += 1
                         transitions += 1
                         _judge(ctx, text, oc, name)
-                        results.add(oc)
+                        if not oc[0].startswith("non-node:history-dependent"):
+                            results.add(oc)
                         if add(text, oc):
                             new_states += 1
                     if len(results) > 1 and _strict(name):
